@@ -311,17 +311,151 @@ class ModuleCanon(object):
 
     def run(self):
         self.subst_constants()
-        inlined = False
+        inlined = self.inline_expression_helpers()
         for _ in range(3):
             if not self.inline_helpers():
                 break
             inlined = True
         if inlined:
             self.drop_inlined_helpers()
+        self.getattr_constants()
         self.inline_temps()
         self.ifexp_to_if()
         self.lock_blocks()
         ast.fix_missing_locations(self.tree)
+
+    # ------------------------------------------------------------ G: getattr(x, "name") is x.name
+    def getattr_constants(self):
+        log = self.log
+        name = self.name
+
+        class G(ast.NodeTransformer):
+            def visit_Call(s, n):
+                s.generic_visit(n)
+                if isinstance(n.func, ast.Name) and n.func.id == "getattr" and len(n.args) == 2 and not n.keywords and isinstance(n.args[1], ast.Constant) \
+                        and isinstance(n.args[1].value, str) and n.args[1].value.isidentifier() and not n.args[1].value.startswith("__"):
+                    log.append(("G", name, "getattr(_, %r)" % n.args[1].value))
+                    return ast.copy_location(ast.Attribute(value=n.args[0], attr=n.args[1].value, ctx=ast.Load()), n)
+                return n
+        for q, fn, cls, clsnode in self.functions():
+            if any(isinstance(x, ast.Name) and x.id == "getattr" for x in own_nodes(fn)):
+                G().visit(fn)
+
+    # ------------------------------------------------------------ HE: new helpers that are one expression
+    @staticmethod
+    def _pure_simple(e, allowed_calls=("getattr", "isinstance", "len", "abs", "int", "min", "max", "bool")):
+        for x in ast.walk(e):
+            if isinstance(x, ast.Call):
+                if not (isinstance(x.func, ast.Name) and x.func.id in allowed_calls) or x.keywords or any(isinstance(a, ast.Starred) for a in x.args):
+                    return False
+            elif isinstance(x, (ast.Lambda, ast.ListComp, ast.SetComp, ast.DictComp, ast.GeneratorExp, ast.Yield, ast.YieldFrom, ast.Await, ast.NamedExpr,
+                                ast.List, ast.Dict, ast.Set, ast.Starred)):
+                return False
+        return True
+
+    def as_expression(self, helper):
+        """The helper as a single expression over its parameters, or None: pure single assignments of temporaries followed by
+        a tail of `if T: return A` ... `return B`."""
+        body = list(helper.body)
+        if body and isinstance(body[0], ast.Expr) and isinstance(body[0].value, ast.Constant) and isinstance(body[0].value.value, str):
+            body = body[1:]
+        params = set(a.arg for a in helper.args.posonlyargs + helper.args.args)
+        env = {}
+
+        def sub(e):
+            return _Subst(dict(env), {}).visit(copy.deepcopy(e))
+
+        def tail(stmts):
+            if not stmts:
+                return None
+            st = stmts[0]
+            if isinstance(st, ast.Return):
+                if st.value is None or not self._pure_simple(st.value):
+                    return None
+                return sub(st.value)
+            if isinstance(st, ast.If) and self._pure_simple(st.test):
+                a = tail(st.body)
+                b = tail(st.orelse) if st.orelse else tail(stmts[1:])
+                if a is None or b is None:
+                    return None
+                return ast.IfExp(test=sub(st.test), body=a, orelse=b)
+            return None
+        i = 0
+        while i < len(body) and isinstance(body[i], ast.Assign):
+            st = body[i]
+            if len(st.targets) != 1 or not isinstance(st.targets[0], ast.Name) or st.targets[0].id in params or st.targets[0].id in env \
+                    or not self._pure_simple(st.value):
+                return None
+            env[st.targets[0].id] = sub(st.value)
+            i += 1
+        for n in own_nodes(helper):
+            if isinstance(n, ast.Name) and isinstance(n.ctx, (ast.Store, ast.Del)) and n.id not in env:
+                return None
+        e = tail(body[i:])
+        if e is None or sum(1 for _ in ast.walk(e)) > 120:
+            return None
+        return e
+
+    def inline_expression_helpers(self):
+        helpers = self.new_helpers()
+        exprs = {}
+        for key, fn in helpers.items():
+            e = self.as_expression(fn)
+            if e is not None:
+                exprs[key] = (fn, e)
+        if not exprs:
+            return False
+        changed = [False]
+        me = self
+
+        for q, fn, cls, clsnode in self.functions():
+            owner = cls
+            if owner is None:
+                for cq in self.base["classes"]:
+                    if q.startswith(cq + "."):
+                        owner = cq
+            if any(fn is h for h, _ in exprs.values()):
+                continue
+
+            class R(ast.NodeTransformer):
+                def visit_Call(s, n):
+                    s.generic_visit(n)
+                    key = me.match_call(n, owner, dict((k, v[0]) for k, v in exprs.items()))
+                    if key is None:
+                        return n
+                    helper, e = exprs[key]
+                    hargs = helper.args
+                    params = [a.arg for a in hargs.posonlyargs + hargs.args]
+                    binding = {}
+                    if isinstance(n.func, ast.Attribute):
+                        if not params:
+                            return n
+                        binding[params[0]] = ast.Name(id="self", ctx=ast.Load())
+                        params = params[1:]
+                    if n.keywords and any(kw.arg is None or kw.arg not in params for kw in n.keywords):
+                        return n
+                    if any(isinstance(a, ast.Starred) for a in n.args) or len(n.args) > len(params):
+                        return n
+                    for p_, a in zip(params, n.args):
+                        binding[p_] = a
+                    for kw in n.keywords:
+                        if kw.arg in binding:
+                            return n
+                        binding[kw.arg] = kw.value
+                    defaults = dict(zip([a.arg for a in (hargs.posonlyargs + hargs.args)][-len(hargs.defaults):] if hargs.defaults else [], hargs.defaults))
+                    for p_ in params:
+                        if p_ not in binding:
+                            if p_ not in defaults:
+                                return n
+                            binding[p_] = defaults[p_]
+                    if not all(simple_arg(a) for a in binding.values()):
+                        return n
+                    me.log.append(("HE", q, ast.unparse(n.func)))
+                    changed[0] = True
+                    return ast.copy_location(_Subst(binding, {}).visit(copy.deepcopy(e)), n)
+            for st in fn.body:
+                R().visit(st)
+        return changed[0]
 
     # ------------------------------------------------------------ K: constants
     def subst_constants(self):
